@@ -255,8 +255,10 @@ def t_tearfree_layout(ctx, it):
   sm = it.load_module(SM)
   for name, init, update in (
       ("tearfree.sketchy", lambda p: sk._init(sk.Options(rank=2), p), lambda g, s: sk._update(sk.Options(rank=2), g, s)),
+      ("tearfree.sketchy[ekfac_svd]", lambda p: sk._init(sk.Options(rank=2, ekfac_svd=True), p),
+       lambda g, s: sk._update(sk.Options(rank=2, ekfac_svd=True), g, s)),
       ("tearfree.shampoo", lambda p: sh._init(sh.Options(block_size=4), p), lambda g, s: sh._update(sh.Options(block_size=4), g, s))):
-    for shape in ((4, 3), (8, 2), (8,)):
+    for shape in ((4, 3), (8, 2), (8,), (12, 2)):
       p = T.opaque("p", shape)
       st = init(p)
       upd, st1 = update(T.opaque("g", shape), st)
